@@ -438,6 +438,12 @@ CORPUS["C13"] += [B("Polyak update in place", "R13.7", A_INPLACE), E("difference
 CORPUS["C11"] += [B("plotting shifts the solution's mu in place", "R11.7", PLOT_MU)]
 CORPUS["C09"] += [B("plotting shifts the solution's mu in place", "R09.6", PLOT_MU)]
 
+
+DT_GUARD = "            dt = np.concatenate(dts) if dts else np.array([], dtype=float)\n"
+CORPUS["C15"] += [B("per-frame dt records concatenated without an emptiness guard", "R15.8", (DATA, DT_GUARD, "            dt = np.concatenate(dts)\n")),
+                  B("mu records concatenated without an emptiness guard", "R15.8", (DATA, "            if mus:\n                mu = np.concatenate(mus, axis=1)[..., mask]\n", "            mu = np.concatenate(mus, axis=1)[..., mask]\n")),
+                  E("dt guard spelled as a statement", (DATA, DT_GUARD, "            if dts:\n                dt = np.concatenate(dts)\n            else:\n                dt = np.array([], dtype=float)\n"))]
+
 # ---------------------------------------------------------------------------
 # generic behaviour-preserving transformations of the anchor functions
 # ---------------------------------------------------------------------------
